@@ -226,6 +226,7 @@ def run(ctx):
     import tokscan
     tokscan.check(db, rep, "D9-TOKENIZER", where)
     d10_checker_readonly(db, rep)
+    d11_valid_index_accepted(db, rep)
 
     # ---- D4: the synthetic name of an inline literal identifies the literal ----------------------------
     # orc_program_append_str_n finds operands BY NAME.  The name made up for an inline literal must therefore be an
@@ -285,7 +286,7 @@ def run(ctx):
         raise AnalysisBroken("no value comparison found in the constant-reuse code of orc_program_add_constant_str")
 
 
-def d6_token_cursor(db, rep):
+def d6_token_cursor(db, rep, names=("D6-TOKEN-CURSOR", "D6b-TOKEN-ONCE"), only=None, floor=3):
     """D6: a handler that walks the tokens of a line with `for (i = ..; i < n_tokens; i++)` must look at every token it
     steps over.  Along every path through the loop body the total advance A of the index (explicit increments plus the
     header's) and the set R of token positions read (tokens[i + k], relative to the index at body entry) must satisfy
@@ -296,6 +297,8 @@ def d6_token_cursor(db, rep):
     tu = db.tu("orcparse")
     n = 0
     for f in tu.main_functions():
+        if only is not None and not only(f):
+            continue
         for loop in [x for x in f.walk() if x.k == "ForStmt"]:
             cl = counted(loop)
             if not cl or cl["dir"] != "asc":
@@ -321,25 +324,38 @@ def d6_token_cursor(db, rep):
             if start is None:
                 raise AnalysisBroken("%s: loop body entry not found (line %s)" % (f.name, loop.line))
             relids = {s.id: linear(s.c[1])[1] for s in rel}
+            # a token handed to a conversion or a constructor is CONSUMED there (a comparison with a keyword only looks at it)
+            COMPARE = ("strcmp", "strncmp", "strcasecmp", "strncasecmp", "memcmp", "strlen")
+            valuse = set()
+            for s in rel:
+                a = s.parent
+                while a is not None and a.k != "CallExpr" and a.id != body.id:
+                    a = a.parent
+                if a is not None and a.k == "CallExpr" and (a.name or "") not in COMPARE:
+                    valuse.add(s.id)
             results = []
+            consumed_paths = []
             seen = set()
-            stack = [(start, 0, frozenset())]
+            stack = [(start, 0, frozenset(), frozenset())]
             while stack:
-                b, delta, reads = stack.pop()
-                if (b, delta, reads) in seen or len(seen) > 20000:
+                b, delta, reads, cons = stack.pop()
+                if (b, delta, reads, cons) in seen or len(seen) > 20000:
                     continue
-                seen.add((b, delta, reads))
+                seen.add((b, delta, reads, cons))
                 blk = f.blocks[b]
                 done = False
                 for e in blk.el:
                     if e.id in inc_ids:
                         if e is strip_casts(inc) or e.id == inc.id:
                             results.append((delta + 1, reads))
+                            consumed_paths.append((delta + 1, cons))
                             done = True
                             break
                         continue
                     if e.id in relids:
                         reads = reads | {delta + relids[e.id]}
+                        if e.id in valuse:
+                            cons = cons | {(delta + relids[e.id], e.line)}
                     elif e.k == "UnaryOperator" and e.op in ("++", "--") and access_path(e.c[0]) == var:
                         delta += 1 if e.op == "++" else -1
                     elif e.k == "CompoundAssignOperator" and e.op in ("+=", "-=") and access_path(e.c[0]) == var and strip_casts(e.c[1]).v is not None:
@@ -355,18 +371,26 @@ def d6_token_cursor(db, rep):
                     continue
                 for s in blk.succs:
                     if s is not None:
-                        stack.append((s, delta, reads))
+                        stack.append((s, delta, reads, cons))
             if not results:
                 continue
             n += 1
             rep.saw(f)
             bad = [(a, sorted(r)) for a, r in results if not set(range(a)) <= r]
-            rep.check(not bad, "D6-TOKEN-CURSOR", where(f), "loop@%s" % var,
+            rep.check(not bad, names[0], where(f), "loop@%s" % var,
                       "%d paths through the token loop: every token stepped over is read" % len(results),
                       "%s: on a path through the loop over line->tokens[] the index advances by %d but only the tokens at relative positions %s are "
                       "looked at: token %s is skipped unread, so an attribute following it (e.g. the type name after `align N`) is silently dropped" %
                       ((f.name, bad[0][0], bad[0][1], sorted(set(range(bad[0][0])) - set(bad[0][1]))) if bad else ("", 0, [], [])), line=loop.line)
-    if n < 3:
+            twice = [(a, sorted(c)) for a, c in consumed_paths if any(pos >= a for pos, _ in c)]
+            rep.check(not twice, names[1], where(f), "loop@%s" % var,
+                      "every token whose value is consumed (passed to a conversion or constructor) is also stepped over",
+                      "%s: on a path through the loop over line->tokens[] the token at relative position %s is consumed as a value (line %s) but the "
+                      "index only advances by %d: the next iteration interprets the same token again, as a keyword or as the plain value "
+                      "(`.n max 16` also sets the constant n to 16)" %
+                      ((f.name, [p_ for p_, _ in twice[0][1] if p_ >= twice[0][0]][0], [l_ for p_, l_ in twice[0][1] if p_ >= twice[0][0]][0], twice[0][0]) if twice else ("", 0, 0, 0)),
+                      line=loop.line)
+    if n < floor:
         raise AnalysisBroken("only %d token loops found in orcparse.c" % n)
 
 
@@ -403,6 +427,40 @@ def d7_line_copy(db, rep):
         raise AnalysisBroken("no copy out of the parser's text cursor found in orcparse.c")
 
 
+def d11_valid_index_accepted(db, rep):
+    """D11: the per-variable setters the handlers call with the index an add_* constructor returned (`align N`, a type name)
+    must act on EVERY valid index.  Index 0 is ORC_VAR_D1 - the first destination - as well as the value the constructors
+    return for a refused variable, so a guard such as `var <= 0` silently drops the attribute of d1 only.  For each function
+    of orcprogram.c that takes (OrcProgram *, int var, ...) and accesses program->vars[var], the access must be reachable with
+    var = 0 and with var = ORC_N_VARIABLES-1 (conditions that do not depend on var are taken both ways)."""
+    from exprval import reachable_under
+    tu = db.tu("orcprogram")
+    N = db.macro_int("ORC_N_VARIABLES")
+    n = 0
+    for f in tu.main_functions():
+        ints = [p["name"] for p in f.params if (p.get("ty") or "") == "int"]
+        progs = [p["name"] for p in f.params if "OrcProgram *" in (p.get("ty") or "")]
+        if not ints or not progs:
+            continue
+        for x in f.walk():
+            if x.k != "ArraySubscriptExpr" or access_path(x.c[0]) != progs[0] + "->vars":
+                continue
+            ix = strip_casts(x.c[1])
+            if ix is None or ix.k != "DeclRefExpr" or ix.name not in ints or ix.get("dk") != "param":
+                continue
+            n += 1
+            rep.saw(f)
+            lost = [v for v in (0, N - 1) if not reachable_under(f, {ix.name: v}, lambda e, x=x: e.id == x.id)]
+            rep.check(not lost, "D11-VALID-INDEX-ACCEPTED", where(f), "%s:vars[%s]" % (f.name, ix.name),
+                      "%s reaches program->vars[%s] for %s = 0 and %d" % (f.name, ix.name, ix.name, N - 1),
+                      "%s does nothing for %s = %s although that is a valid variable index (0 is ORC_VAR_D1, the first destination): the attribute the "
+                      "text gives that variable (`.dest 2 d1 align 16`) is dropped without an error while the API-built program has it" %
+                      (f.name, ix.name, " and ".join(str(v) for v in lost)), line=x.line)
+            break
+    if n < 2:
+        raise AnalysisBroken("only %d indexed variable setters found in orcprogram.c" % n)
+
+
 def d10_checker_readonly(db, rep):
     """D10: a function of the parser that CHECKS a finished program (takes the OrcProgram, reports through orc_parse_add_error,
     calls no constructor) must leave it as built: any field it sets is state the construction API would not have set, and the
@@ -419,6 +477,17 @@ def d10_checker_readonly(db, rep):
         n += 1
         rep.saw(f)
         bad = None
+        # local pointers into the program (OrcVariable *v = program->vars + i)
+        for x in f.walk():
+            src = None
+            if x.k == "VarDecl" and "*" in (x.ty or "") and x.c and x.c[0] is not None:
+                src, nm = x.c[0], x.name
+            elif x.k == "BinaryOperator" and x.op == "=" and strip_casts(x.c[0]) is not None and strip_casts(x.c[0]).k == "DeclRefExpr" and "*" in (strip_casts(x.c[0]).ty or ""):
+                src, nm = x.c[1], strip_casts(x.c[0]).name
+            if src is not None and strip_casts(src) is not None and strip_casts(src).k != "CallExpr":
+                rv = root_var(src)
+                if rv is not None and rv.name in pp and "char" not in (x.ty or "" if x.k == "VarDecl" else strip_casts(x.c[0]).ty or ""):
+                    pp = pp + [nm]
         for x in f.walk():
             lhs = None
             if x.k in ("BinaryOperator", "CompoundAssignOperator") and x.op in ASSIGN_OPS:
